@@ -90,6 +90,9 @@ def Header.fromReader (rd : Bytes) : Res (Header × List Nat × Bytes) :=
 structure Sectors where
   data : Bytes
   size : Nat
+  /-- sectors not held yet are read from the file; false for the mini stream (`Sectors::in_memory`), which is
+      complete in memory: its sectors are not sectors of the file -/
+  lazy : Bool
   deriving Repr, DecidableEq
 
 /-- `Sectors::get` (EOF-safe version): read from `rd` what is missing up to the end of sector `id`
@@ -98,8 +101,8 @@ def Sectors.get (s : Sectors) (id : Nat) (rd : Bytes) : Bytes × Sectors × Byte
   let start := id * s.size
   let end_ := start + s.size
   let dl := s.data.length
-  let data := if end_ > dl then s.data ++ rd.take (end_ - dl) else s.data
-  let rd' := if end_ > dl then rd.drop (end_ - dl) else rd
+  let data := if s.lazy ∧ end_ > dl then s.data ++ rd.take (end_ - dl) else s.data
+  let rd' := if s.lazy ∧ end_ > dl then rd.drop (end_ - dl) else rd
   let len := data.length
   ((data.drop (min start len)).take (min end_ len - min start len), { s with data := data }, rd')
 
@@ -248,7 +251,7 @@ def loadFats : List Nat → Sectors → Bytes → (acc n : Nat) → Res (List Na
     (clamped to 16 MiB): nothing depends on it -/
 def new (file : Bytes) (_len : Nat) : Res (CfbSt × Bytes) := do
   let (h, difat0, rd) ← Header.fromReader file
-  let (difat, s1, rd1) ← difatLoop (file.length + 1) h.difatStart difat0 ⟨[], h.sectorSize⟩ rd 0
+  let (difat, s1, rd1) ← difatLoop (file.length + 1) h.difatStart difat0 ⟨[], h.sectorSize, true⟩ rd 0
   let (fats, s2, rd2) ← loadFats difat s1 rd1 0 h.fatLen
   let (dirBytes, s3, rd3) ← s2.getChain h.dirStart fats rd2 (h.dirLen * h.sectorSize)
   let dirs ← parseDirs h.sectorSize (chunksExact 128 dirBytes)
@@ -258,8 +261,8 @@ def new (file : Bytes) (_len : Nat) : Res (CfbSt × Bytes) := do
     if h.miniFatLen > 0 then do
       let (ministream, s4, rd4) ← s3.getChain root.start fats rd3 root.len
       let (mf, s5, rd5) ← s4.getChain h.miniFatStart fats rd4 (h.miniFatLen * h.sectorSize)
-      .ok (⟨dirs, s5, fats, ⟨ministream, 64⟩, u32s mf⟩, rd5)
-    else .ok (⟨dirs, s3, fats, ⟨[], 64⟩, []⟩, rd3)
+      .ok (⟨dirs, s5, fats, ⟨ministream, 64, false⟩, u32s mf⟩, rd5)
+    else .ok (⟨dirs, s3, fats, ⟨[], 64, false⟩, []⟩, rd3)
 
 /-- `Cfb::has_directory`: any entry of that name, whatever its type (callers ask for storages and for streams) -/
 def hasDirectory (c : CfbSt) (name : List Char) : Bool := c.dirs.any (fun d => d.name = name)
@@ -347,8 +350,8 @@ def loadFatsCost : List Nat → Sectors → Bytes → (acc n : Nat) → Nat
 def newCost (file : Bytes) : Nat :=
   match Header.fromReader file with
   | .ok (h, difat0, rd) =>
-    let c1 := difatLoopCost (file.length + 1) h.difatStart difat0 ⟨[], h.sectorSize⟩ rd 0
-    match difatLoop (file.length + 1) h.difatStart difat0 ⟨[], h.sectorSize⟩ rd 0 with
+    let c1 := difatLoopCost (file.length + 1) h.difatStart difat0 ⟨[], h.sectorSize, true⟩ rd 0
+    match difatLoop (file.length + 1) h.difatStart difat0 ⟨[], h.sectorSize, true⟩ rd 0 with
     | .ok (difat, s1, rd1) =>
       let c2 := loadFatsCost difat s1 rd1 0 h.fatLen
       match loadFats difat s1 rd1 0 h.fatLen with
